@@ -315,7 +315,8 @@ Print Assumptions C01_nonvacuous.
    C01_order_window); the replayed part must have the shape of (the beginning of) a join replay of
    the RTP pack cache: at most one VPS, one SPS, one PPS packet in this order, then, only with the
    GOP cache on, a key-frame start followed in published order by video packets none of which
-   starts a key frame (C01_rcache_replay_shape) - without this the split "everything is replay"
+   starts a key frame, leaving out no video packet published in between
+   (C01_rcache_replay_shape) - without this the split "everything is replay"
    would make the order clause empty.  The hypothesis of C01_out_at_most_once on the join replay
    is discharged for the RTP pack cache: a replay only holds published packets and never repeats
    an id. *)
@@ -333,7 +334,8 @@ Theorem C01_rcache_replay_shape : forall c : lcase, l_var c = fixed -> forall i,
     | [] => True
     | k :: r => p_key k = true /\ forall q, In q r -> p_key q = false
     end /\
-    (g <> [] -> l_gop c = true).
+    (g <> [] -> l_gop c = true) /\
+    (g = [] \/ exists A M R, l_pkts c = A ++ M ++ R /\ g = filter is_media M).
 Proof. exact (fun c H i => proj2 (proj2 (proj2 (prefill_facts c H i)))). Qed.
 Print Assumptions C01_rcache_replay_shape.
 
